@@ -1,7 +1,7 @@
 """Executor for kernel cases (C06): runs one kernel, logs operands as used, the output and the operands afterwards."""
 import sys
 
-sys.path.insert(0, "/repo")
+sys.path.insert(0, __import__("os").environ.get("VERIF_REPO", "/repo"))
 from . import proj, kernel  # noqa: E402
 
 
